@@ -376,20 +376,6 @@ theorem pf_decAlt (as : Alts) : as.All PT → ∀ (f f' N i : Nat), N < f' →
       simp only [decAlt]
       exact ih hrest f f' N i hf pos q x hN hal
 
-/-- `res_bind` whose continuation may leave MORE input than the first step did (the backward
-`skip_bits` of a CHOICE addition): only the bound `n` of the whole parser is required -/
-theorem res_bind_back {α β : Type} {m m' : DecM (α × St)} {g g' : α × St → DecM (β × St)}
-    {x : Bits} {b : β} {r : St} {n T : Nat}
-    (hm : ∀ a s1, m = .ok (a, s1) → Res x a s1 n T m')
-    (h : (m >>= g) = .ok (b, r))
-    (hg : ∀ a pos1 r1, r1.length ≤ n → pos1 + r1.length = T → m' = .ok (a, ⟨pos1, r1⟩) →
-      g (a, ⟨pos1, r1 ++ x⟩) = .ok (b, r) → Res x b r n T (g' (a, ⟨pos1, r1⟩))) :
-    Res x b r n T (m' >>= g') := by
-  obtain ⟨⟨a, s1⟩, h1, h⟩ := bind_ok h
-  rcases hm a s1 h1 with ⟨p1, r1', e1, rfl, hl, hT1⟩ | e1
-  · rw [e1]; exact hg a p1 r1' hl hT1 e1 h
-  · rw [e1]; exact .inr rfl
-
 theorem pt_choice (root : Alts) (ext : Bool) (adds : Alts)
     (ihr : root.All PT) (iha : adds.All PT) : PT (.choice root ext adds) := by
   intro f f' N hf pos q x a r hN hal h
@@ -416,19 +402,15 @@ theorem pt_choice (root : Alts) (ext : Bool) (adds : Alts)
     · rw [e1] at h; rw [e2]
       dsimp only at h ⊢
       rw [hT2] at hres
-      refine res_bind_back hres h ?_
+      refine res_bind hres h ?_
       intro v p3 r3 hl3 hT3 _ h
       dsimp only at h ⊢
       revert h
       split
-      · -- the alternative read beyond the open type: the decoder jumps back to its end
-        rename_i hgt
-        have hle : 8 * len ≤ r2.length := by omega
-        rw [List.drop_append_of_le_length hle]
+      · -- the alternative read beyond the open type: rejected (on the prefix as well)
         intro h; cases h
-        exact res_ok (by simp only [List.length_drop]; omega) (by simp only [List.length_drop]; omega)
       · intro h
-        refine Res.mono (pf_bind (pf_readBits _ N) (by omega) hal hT3 h ?_) hl3
+        refine pf_bind (pf_readBits _ N) (by omega) hal hT3 h ?_
         intro body p4 r4 hl4 hT4 _
         pf_ok
   · intro h
